@@ -56,6 +56,9 @@ type Trial struct {
 	Obs    bool              `json:"obs"`
 	Done   bool              `json:"done"` // Succeeded (otherwise Running) when neither MU nor ES
 	Failed bool              `json:"failed"` // Failed, without observation
+	// the trial is being deleted (kubectl delete trial) and still exists because its finalizer is pending: still the
+	// experiment's own trial
+	Deleting bool `json:"deleting,omitempty"`
 }
 type Input struct {
 	Exps   []Exp   `json:"exps"`
@@ -149,6 +152,7 @@ func (c09) Gen(r *rand.Rand, i, n int) any {
 			case 4:
 				t.Failed = true
 			}
+			t.Deleting = r.Intn(10) == 0
 			in.Trials = append(in.Trials, t)
 		}
 	}
@@ -282,6 +286,7 @@ func (c09) Run(input any) kit.Case {
 		}
 		trialLabels[i] = copyMap(tr.Labels)
 		tr.Spec.Objective = e.Spec.Objective
+		tr.Finalizers = []string{"clean-metrics-in-db"}
 		if err := cl.Create(ctx, tr); err != nil {
 			panic(err)
 		}
@@ -305,6 +310,11 @@ func (c09) Run(input any) kit.Case {
 		}
 		if err := cl.Status().Update(ctx, tr); err != nil {
 			panic(err)
+		}
+		if t.Deleting {
+			if err := cl.Delete(ctx, tr); err != nil { // the finalizer keeps the object, with a deletion timestamp
+				panic(err)
+			}
 		}
 	}
 	// metadata-only updates of the experiments after their trials exist; the model is given the experiments as they are now
@@ -460,6 +470,12 @@ func (c09) Run(input any) kit.Case {
 	}
 	if in.Late {
 		c.Tags = append(c.Tags, "second-sync-after-late-observations")
+	}
+	for _, t := range trs {
+		if t.Owner == in.Target && t.Deleting {
+			c.Tags = append(c.Tags, "has-terminating-trial")
+			break
+		}
 	}
 	if skipped {
 		c.Tags = append(c.Tags, "has-skipped-trial")
